@@ -7,6 +7,8 @@ OVERLAY = {
     "daemon_export.go": "daemon/zz_verif_export.go",
     "eni_export.go": "pkg/eni/zz_verif_export.go",
     "ctlnode_export.go": "pkg/controller/node/zz_verif_export.go",
+    "k8s_export.go": "pkg/k8s/zz_verif_export.go",
+    "podeni_export.go": "pkg/controller/pod-eni/zz_verif_export.go",
 }
 
 NOT_APPLICABLE = {}
@@ -76,6 +78,22 @@ PROPS = {
                       "caller's list unchanged, reads do not disturb the view. Tied by replaying histories on the real pool under a virtual clock.",
         "level_note": "Trusted: Coq kernel, extraction, driver, harness, synctest. Data-race freedom under concurrent use is shown by the race detector (thorough tier), "
                       "the theorem covers logical atomicity of the cache reads.",
+    },
+    "C15": {
+        "pkg": "./c15/", "test": "TestVerif_C15", "n_quick": 3000, "n_thorough": 300000,
+        "rule": "bandwidth strings: structured ([space][sign]digits[.digits][space]unit[space], 32 unit spellings) + a fixed list of 70 hostile strings + random byte strings "
+                "through parseBandwidth (value compared exactly: <= 9 integer and <= 3 fraction digits), the five units on one number, and malformed/mutated annotation, "
+                "JSON, ConfigMap and stored-record documents through convertPod, ParsePodNetworks*, podNumaHints, MergeConfigAndUnmarshal+Validate, deserialize under recover(). "
+                "non-trivial = bandwidth case the model accepts with a unit or a unit-less value, or a non-bandwidth document that is not valid JSON; distinct = distinct inputs",
+        "trusted": ["ParseFloat on letter-free ASCII input accepts exactly [+-](digits+[.digits*]|.digits+) and rounds within the exact-safe region (argued in DESIGN.md C15)"],
+        "modelled": ["encoding/json, yaml, strconv, apimachinery quantity parsing are library code: fuzzed under recover(), not proved",
+                     "non-ASCII strings: only absence of a panic is compared (Unicode TrimSpace/ToUpper/IsLetter are not modelled)"],
+        "assumptions": [],
+        "level_text": "Theorems for every byte string: parseBandwidth's slice index is in range (no panic), unit-less positive values are accepted with their value, "
+                      "a clean decimal followed by a unit gets that unit's multiple, multiples are monotone B<=K<=M<=G<=T. Other entry points are library parsing + glue: "
+                      "exercised under recover() with structured and malformed streams (a test supporting the claim, not a theorem).",
+        "level_note": "Trusted: Coq kernel, extraction, driver, harness. float64 rounding modelled by exact rationals inside the exact-safe region only. "
+                      "Proof covers parseBandwidth; the remaining entry points are decided by recover()-guarded execution only (partial).",
     },
 }
 
@@ -275,4 +293,48 @@ def dist_C17(cases):
                         d["errors"] += 1
         except Exception:
             pass
+    return d
+
+
+# ---- C15 ---------------------------------------------------------------------
+def _c15_str(ins, pos):
+    n = int(ins[pos])
+    return bytes(int(x) & 255 for x in ins[pos + 1:pos + 1 + n])
+
+
+def sig_C15(ins, outs):
+    fn = ins[0]
+    if fn == "1":
+        s = _c15_str(ins, 2)
+        if outs == ["-998"] and not any(chr(c).isalpha() for c in s if c < 128):
+            return "C15:parseBandwidth:panic-on-value-without-unit"
+        return "C15:parseBandwidth"
+    if fn == "9":
+        return "C15:parseBandwidth:units"
+    if fn == "2" and outs == ["-998"]:
+        return "C15:convertPod:panic"
+    return "C15:fn" + fn
+
+
+def nt_C15(ins, outs):
+    if ins[0] == "1":
+        return outs[:1] == ["0"]
+    if ins[0] == "9":
+        return True
+    return True
+
+
+def dist_C15(cases):
+    d = {"bandwidth": 0, "bandwidth_ok": 0, "bandwidth_err": 0, "bandwidth_nonascii": 0, "units": 0, "convertPod": 0, "podNetworks": 0, "numa": 0, "config": 0, "record": 0, "panics": 0}
+    names = {"2": "convertPod", "3": "podNetworks", "4": "numa", "5": "config", "6": "record", "9": "units"}
+    for _, ins, outs in cases:
+        if ins[0] == "1":
+            d["bandwidth"] += 1
+            k = {"0": "bandwidth_ok", "1": "bandwidth_err", "2": "bandwidth_nonascii"}.get(outs[0] if outs else "")
+            if k:
+                d[k] += 1
+        elif ins[0] in names:
+            d[names[ins[0]]] += 1
+        if outs == ["-998"]:
+            d["panics"] += 1
     return d
